@@ -248,8 +248,9 @@ def work_base(arg):
             for sig, det, tool in judge(case, res, table):
                 if sig in SHAPES and SHAPES[sig][1](case.text):
                     sig = sig + ":" + SHAPES[sig][0]
-                if f9_present and sig == "valid-signal" and tool == "exp2python" and has_attribute(case.text):
-                    sig = F9_SIG      # while F9 is in the tree every such crash is attributed to it (cannot be told apart cheaply)
+                if f9_present and sig == "valid-signal" and tool == "exp2python":
+                    sig = F9_SIG      # while F9 is in the tree every crash of exp2python on an accepted input is attributed to it: strdup() is
+                    # also used for parameters and string literals, and the crashes cannot be told apart cheaply
                 fails.append({"sig": sig, "what": det, "text": case.text, "kind": case.kind, "cls": case.cls, "tool": tool, "exppp_o": exppp_o,
                               "crash": ("signal" in sig), "f9_present": f9_present})
         return {"ev": ev.partial(), "fails": fails}
@@ -269,7 +270,7 @@ def recheck(f):
         for sig, det, tool in judge(case, res, table):
             if sig in SHAPES and SHAPES[sig][1](f["text"]):
                 sig = sig + ":" + SHAPES[sig][0]
-            if f.get("f9_present") and sig == "valid-signal" and tool == "exp2python" and has_attribute(f["text"]):
+            if f.get("f9_present") and sig == "valid-signal" and tool == "exp2python":
                 sig = F9_SIG
             out.append((sig, det))
         return out
@@ -284,7 +285,7 @@ def main(tier, seed):
     f9_known = findings.match(PROP, F9_SIG) is not None
     f9_present = f9_probe()
     ev.extra["finding_F9_present_in_tree"] = f9_present
-    n = 210 if tier == "quick" else 1500
+    n = 400 if tier == "quick" else 1800
     avoid = sorted(shape for base_sig, (shape, _p) in SHAPES.items() if findings.match(PROP, base_sig + ":" + shape))
     srcs = M.sources(common.sub_seed(seed, PROP, "schemas"), n, {"expgen": {"max_ent": 8, "max_typ": 6}, "explang": {"avoid": set(avoid)}})
     if avoid:
@@ -379,7 +380,7 @@ def main(tier, seed):
     for fid in ev.known:
         e = [x for x in findings.entries if x.get("id") == fid]
         common.print_known(PROP, e[0]["what"] if e else fid)
-    min_cases = 4000 if tier == "quick" else 30000
+    min_cases = 8000 if tier == "quick" else 30000
     if ev.evaluations < min_cases and rc == 0:
         print("machinery failure: only %d cases executed" % ev.evaluations)
         rc = 3
